@@ -350,7 +350,7 @@ class ExprMixin:
                 xs = self.zs.lift(x, cont.term.sort().domain())
                 return z3.Select(cont.term, xs)
             if cont.kind == 'dict':
-                raise Unsupported('in dict box')
+                return z3.Select(cont.term, self.zs.lift(x, cont.term.sort().domain()))
             cont = cont.term
         if not is_sym(cont) and not contains_sym(cont):
             if not is_sym(x):
@@ -438,7 +438,16 @@ class ExprMixin:
             else:
                 raise Unsupported('symbolic index into concrete container')
         if isinstance(base, VBox) and base.kind == 'dict':
-            raise Unsupported('dict box index')
+            k = self.zs.lift(idx, base.term.sort().domain())
+            has = z3.Select(base.term, k)
+            if not self.cur_pure():
+                if self.implicit_as_paths:
+                    if not self.path.branch(has):
+                        raise PyRaise(KeyError, (), node, implicit=True)
+                else:
+                    self.oblige('safety:key', has, node)
+                    self.path.assume(has)
+            return z3.Select(base.vsort, k)
         if z3.is_expr(base) and base.sort().name() in self.zs.rec_by_sort:
             dt, S = self.zs.rec_by_sort[base.sort().name()]
             if not isinstance(idx, int) or not (-len(S.fields) <= idx < len(S.fields)):
@@ -534,7 +543,45 @@ class ExprMixin:
         return self.new_list(self.comp_items(e, fr), fr)
 
     def ev_GeneratorExp(self, e, fr):
+        if len(e.generators) == 1 and not e.generators[0].ifs:
+            it = self.unwrap(self.ev(e.generators[0].iter, fr), e)
+            if self.symbolic_iter(it) is not None and not self.has_concrete_len(it):
+                return LazyGen(it, e.generators[0].target, e.elt, fr)
+            return PyList(self.comp_items_over(e, fr, it), 'gen')
         return PyList(self.comp_items(e, fr), 'gen')
+
+    def has_concrete_len(self, it):
+        return self.seq_concrete_items(simp(self.seqterm(it))) is not None
+
+    def comp_items_over(self, e, fr, it):
+        out = []
+        g = e.generators[0]
+        for x in self.concrete_iter(it, g.iter):
+            f2 = Frame(fr.fs, {}, fr.module, fr, fr.contract)
+            self.assign(g.target, x, f2)
+            out.append(self.ev(e.elt, f2))
+        return out
+
+    def quantify_gen(self, lg, exists):
+        """any()/all() over a generator on a symbolic sequence: the element expression must be pure"""
+        t = self.seqterm(lg.seq)
+        j = z3.Int(f'gen!j!{self.qcount}')
+        self.qcount += 1
+        el = t[j]
+        esort = getattr(lg.seq, 'esort', None)
+        if esort is not None:
+            el = self.wrap_sort(el, esort)
+        f2 = Frame(None, {}, lg.frame.module, lg.frame, lg.frame.contract)
+        self._pure += 1
+        try:
+            self.assign(lg.target, el, f2)
+            body = self.truth(self.ev(lg.elt, f2))
+        finally:
+            self._pure -= 1
+        rng = z3.And(j >= 0, j < z3.Length(t))
+        if exists:
+            return z3.Exists([j], z3.And(rng, body))
+        return z3.ForAll([j], z3.Implies(rng, body))
 
     def ev_SetComp(self, e, fr):
         items = self.comp_items(e, fr)
@@ -604,6 +651,12 @@ class ExprMixin:
                 out += r
             return out
         return None
+
+
+class LazyGen:
+    """generator expression over a symbolic sequence (consumed by any()/all())"""
+    def __init__(self, seq, target, elt, frame):
+        self.seq, self.target, self.elt, self.frame = seq, target, elt, frame
 
 
 class PyList:
